@@ -219,7 +219,11 @@ def partitions_for(rng, stream, tier, exhaustive_tail=0):
                 outs.append([pre + parts[0]] + parts[1:])
     else:
         outs.append([stream] if n else [])
-        outs.append([stream[i:i + 1] for i in range(n)])
+        if n <= 2000:
+            outs.append([stream[i:i + 1] for i in range(n)])
+        else:   # long stream: single bytes around the head and at the end, 1 KiB blocks in between
+            outs.append([stream[i:i + 1] for i in range(400)] + [stream[i:i + 1024] for i in range(400, n - 200, 1024)][:-1]
+                        + [stream[400 + 1024 * ((n - 600 - 1) // 1024):n - 200]] + [stream[i:i + 1] for i in range(n - 200, n)])
         for _ in range(3 if tier == "quick" else 8):
             outs.append(rng.partition(stream))
     return outs
